@@ -649,6 +649,23 @@ def writer_trace(p):
     return out, tmp_src
 
 
+def cvc5_verdict(smt2):
+    """the same SMT-LIB2 text decided by cvc5 (None: not available / no answer in time)"""
+    import shutil
+    import subprocess
+    exe = shutil.which("cvc5")
+    if exe is None or os.environ.get("VERIF_CVC5", "1") == "0":
+        return None
+    try:
+        p = subprocess.run([exe, "--lang", "smt2", "--tlimit", "60000"], input=smt2, stdout=subprocess.PIPE, stderr=subprocess.PIPE, text=True, timeout=90)
+    except subprocess.TimeoutExpired:
+        return None
+    out = p.stdout.strip().splitlines()
+    if "(error" in p.stdout:
+        return "error"
+    return out[0] if out and out[0] in ("sat", "unsat") else None
+
+
 def two_writers(trace, tmp_src, timeout_ms=120000):
     """z3: is there an interleaving of two writers running `trace` (own frames) after which the object is neither writer's content?
     File contents are (length, slots) over linear integer arithmetic; the schedule is a vector of symbolic Booleans.
@@ -704,6 +721,10 @@ def two_writers(trace, tmp_src, timeout_ms=120000):
             return z3.And(dl == len(frames), *[ds[k] == base[w] + idx + 1 for k, idx in enumerate(frames)])
         s.add(z3.Not(is_whole("A")), z3.Not(is_whole("B")))
         r = s.check()
+        if r in (z3.sat, z3.unsat):
+            other = cvc5_verdict(s.to_smt2())
+            if other is not None and other != str(r):
+                return "unknown", {"disagreement": "z3 %s, cvc5 %s" % (r, other)}, distinct, time.time() - t0
         if r == z3.sat:
             mod = s.model()
             return "sat", {"tmp_names_equal": ta == tb, "schedule": ["A" if z3.is_true(mod.eval(b, model_completion=True)) else "B" for b in sched]}, distinct, time.time() - t0
